@@ -36,6 +36,20 @@ func init() {
 type c15Witness struct {
 	Hex   string `json:"bytecode_hex"`
 	Entry string `json:"entry"`
+	// PrevHex: the input handed to the SAME ParseHandler immediately before (entry "ToString-reused-handler")
+	PrevHex string `json:"previous_input_on_same_handler_hex,omitempty"`
+}
+
+// a disassembler handle that is reused for every input of this worker, next to the fresh one per call
+var c15Shared = vm.NewParseHandler().WithDefaultHandlers()
+var c15SharedPrev []byte
+
+func c15Reused(h *vm.ParseHandler, in []byte) (out callOut) {
+	defer guard(&out)
+	s, err := h.ToString(in)
+	out.ok = err == nil
+	out.text = s
+	return
 }
 
 type permRes struct{}
@@ -102,6 +116,7 @@ var c15Steps int
 func callRun(b []byte) (out callOut) {
 	defer guard(&out)
 	st := state.NewState(2032)
+	st.SetInput([]byte("1")) // so that INCMP lines are executed (selector "1" matches, others do not)
 	ca := cache.NewCache()
 	v := vm.NewVm(st, permRes{}, ca, nil)
 	c15Steps = 0
@@ -142,6 +157,10 @@ func present(in []byte, mode int) []byte {
 func straight(i codec.Ins) bool {
 	switch i.Op {
 	case codec.MOUT, codec.MNEXT, codec.MPREV, codec.MSINK, codec.LOAD:
+		return true
+	case codec.INCMP:
+		// with the permissive resource a matching INCMP moves to a node without code and execution goes on
+		// with the next instruction; after a match later INCMP lines are ignored - but they are still decoded
 		return true
 	case codec.CROAK, codec.CATCH:
 		return i.Mode && i.N >= 8 && i.N < 2040
@@ -217,6 +236,16 @@ func c15Check(c *mc.Ctx, in []byte) {
 	if sig != "" {
 		c.Fail(sig, msg, c15Witness{Hex: hex.EncodeToString(in), Entry: entry})
 	}
+	// the same input through the reused handle: the result must not depend on what the handle saw before
+	if sig == "" {
+		fresh, reused := callToString(present(in, 0)), c15Reused(c15Shared, present(in, 0))
+		if !fresh.panicked && !reused.panicked && !fresh.same(reused) {
+			c.Fail("disassembler-keeps-state-between-calls", fmt.Sprintf("ToString(%x) on a handler that had processed %x before gives (ok=%v,%q); on a fresh handler (ok=%v,%q)", in, c15SharedPrev, reused.ok, reused.text, fresh.ok, fresh.text),
+				c15Witness{Hex: hex.EncodeToString(in), Entry: "ToString-reused-handler", PrevHex: hex.EncodeToString(c15SharedPrev)})
+			c15Shared = vm.NewParseHandler().WithDefaultHandlers()
+		}
+		c15SharedPrev = append([]byte(nil), in...)
+	}
 }
 
 func c15Replay(w json.RawMessage) (string, string) {
@@ -227,6 +256,16 @@ func c15Replay(w json.RawMessage) (string, string) {
 	in, err := hex.DecodeString(wit.Hex)
 	if err != nil {
 		return "bad-witness", err.Error()
+	}
+	if wit.Entry == "ToString-reused-handler" {
+		prev, _ := hex.DecodeString(wit.PrevHex)
+		h := vm.NewParseHandler().WithDefaultHandlers()
+		c15Reused(h, prev)
+		fresh, reused := callToString(present(in, 0)), c15Reused(h, present(in, 0))
+		if !fresh.same(reused) {
+			return "disassembler-keeps-state-between-calls", fmt.Sprintf("ToString(%x) after %x on the same handler: (ok=%v,%q), fresh handler (ok=%v,%q)", in, prev, reused.ok, reused.text, fresh.ok, fresh.text)
+		}
+		return "", ""
 	}
 	sig, msg, _ := c15One(in, wit.Entry)
 	return sig, msg
@@ -312,6 +351,12 @@ func c15Run(c *mc.Ctx) {
 	for _, i := range sub {
 		for _, j := range sub {
 			progs = append(progs, []codec.Ins{i, j})
+		}
+	}
+	// programs in which an instruction FOLLOWS a matching INCMP in the same run (input is "1")
+	for _, first := range []codec.Ins{{Op: codec.INCMP, Sym: "foo", Sel: "1"}, {Op: codec.INCMP, Sym: "foo", Sel: "*"}} {
+		for _, second := range []codec.Ins{{Op: codec.INCMP, Sym: "bar", Sel: "1"}, {Op: codec.INCMP, Sym: "bar", Sel: "2"}, {Op: codec.LOAD, Sym: "foo", N: 300}, {Op: codec.CATCH, Sym: "bar", N: 9, Mode: true}, {Op: codec.MOUT, Sym: "lbl", Sel: "0"}} {
+			progs = append(progs, []codec.Ins{first, second}, []codec.Ins{{Op: codec.MOUT, Sym: "x", Sel: "1"}, first, second})
 		}
 	}
 	c.Note("mutant_pool_programs", fmt.Sprint(len(progs)))
